@@ -146,10 +146,29 @@ def run_case(spec):
     for e in world.escapes:
         viol.append({"key": "C09/api-call-raises/%s" % e[3], "msg": "%s: %s" % (e[2], e[4]), "witness": wit()})
         break
-    # close politely and make sure nothing odd happens (not part of the verdict beyond hangs)
+    # the nameplate: a release that got no answer because the connection dropped is issued again, so once
+    # everything has been delivered nobody holds a claim any more
+    # (only the nameplate of the code in use: an `allocate` whose reply was lost leaves an orphan the client
+    # cannot know about)
+    used_np = (drv.a.code or "").split("-")[0]
+
+    def claimed_now():
+        return [(n, sd) for (n, sd, c) in world.nameplate_claims() if c and n == used_np]
+    still_claimed = claimed_now()
+    if complete and still_claimed and not viol:
+        sch.drain(30.0, 3000, until=lambda: not claimed_now())
+        still_claimed = claimed_now()
+        if still_claimed:
+            who = ["A" if sd == drv.a.w._boss._side else "B" if sd == drv.b.w._boss._side else "?" for (n, sd) in still_claimed]
+            viol.append({"key": "C09/release-not-reissued", "msg": "everything was delivered, yet %s still holds the nameplate claim at the server" % who,
+                         "witness": wit()})
+    # close politely: the session must also wind down normally after the reconnects
     drv.a.close()
     drv.b.close()
-    sch.drain(120.0, 4000, until=lambda: drv.a.closed and drv.b.closed)
+    sch.drain(300.0, 8000, until=lambda: drv.a.closed and drv.b.closed)
+    if complete and not viol and not (drv.a.closed and drv.b.closed):
+        viol.append({"key": "C09/close-hangs-after-reconnects", "msg": "close() did not complete within 300 virtual s (A closed=%s, B closed=%s)" % (drv.a.closed, drv.b.closed),
+                     "witness": wit()})
     world.finish()
     nontrivial = None
     if drv.drops_done and drv.a.msgs and drv.b.msgs:
